@@ -19,8 +19,9 @@ inductive VisitsZ (P : Prog) : Expr → List LCell → List Nat → Prop
   | lam {ps body} : VisitsZ P (.lam ps body) [] []
   | un {op a s J} : VisitsZ P a s J → VisitsZ P (.un op a) s J
   | bin {op a b s1 s2 J1 J2} : VisitsZ P a s1 J1 → VisitsZ P b s2 J2 → VisitsZ P (.bin op a b) (s1 ++ s2) (J1 ++ J2)
-  | ite {c a b s sa J Ja} : VisitsZ P c s J → VisitsZ P a sa Ja → statelessCells sa = true →
-      VisitsZ P (.ite c a b) (s ++ sa) (J ++ (Ja ++ sitesE b))
+  | ite {c a b s sa sb J Ja Jb} : VisitsZ P c s J → VisitsZ P a sa Ja → statelessCells sa = true →
+      VisitsZ P b sb Jb → statelessCells sb = true →
+      VisitsZ P (.ite c a b) (s ++ (sa ++ sb)) (J ++ (Ja ++ Jb))
   | letE {x a body s1 s2 J1 J2} : VisitsZ P a s1 J1 → VisitsZ P body s2 J2 →
       VisitsZ P (.letE x a body) (s1 ++ s2) (J1 ++ J2)
   | letTup {xs a body s1 s2 J1 J2} : VisitsZ P a s1 J1 → VisitsZ P body s2 J2 →
@@ -160,24 +161,24 @@ theorem eval_visitsZ (P : Prog) (rt : Rt) : ∀ (fuel : Nat),
           | _ => simp at h
       | ite c a b =>
         cases hv with
-        | ite hc ha hsa =>
+        | ite hc ha hsa hb hsb =>
           rw [eval_ite] at h
           obtain ⟨⟨v1, σ1, t1⟩, h1, h⟩ := andThen_ok h
           cases v1 with
           | num x =>
             simp only at h
             have e1 := ihE c _ _ _ _ _ _ _ _ _ hl (sub_left hs) (nin_left hj) hc h1
+            have hsa' := sub_left (sub_right hs)
+            have hsb' := sub_right (sub_right hs)
             split at h
-            · exact EffZ.seq hl (sub_right hs) e1
-                (ihE a _ _ _ _ _ _ _ _ _ hl (sub_right hs) (nin_left (nin_right hj)) ha h)
-            · -- the `else` arm runs: it only touches sites the layout does not own; the published (stateless) cells of
-              -- the `then` arm are visited idly
-              have hfr := (eval_frame P rt n).1 b _ _ _ _ _ _ h
-              have hdis : ∀ c ∈ cells, c.site ∉ sitesE b := fun c hc hin =>
-                (nin_right (nin_right hj)) _ hin (mem_sitesOf cells c hc)
-              have hsame := same_of_frame cells (sitesE b) t1 st' hfr hdis
-              obtain ⟨pa, hpa, hidle⟩ := idle_cells _ hsa cells t1 hl (sub_right hs)
-              exact EffZ.seq hl (sub_right hs) e1 ⟨pa, hpa, hsame.trans hidle.symm⟩
+            · -- the `then` arm runs: the (stateless) cells of the `else` arm are visited idly
+              have ea := ihE a _ _ _ _ _ _ _ _ _ hl hsa' (nin_left (nin_right hj)) ha h
+              obtain ⟨pb, hpb, hidle⟩ := idle_cells _ hsb cells st' hl hsb'
+              exact EffZ.seq hl (sub_right hs) e1 (EffZ.seq hl hsb' ea ⟨pb, hpb, hidle.symm⟩)
+            · -- the `else` arm runs: the (stateless) cells of the `then` arm are visited idly
+              have eb := ihE b _ _ _ _ _ _ _ _ _ hl hsb' (nin_right (nin_right hj)) hb h
+              obtain ⟨pa, hpa, hidle⟩ := idle_cells _ hsa cells t1 hl hsa'
+              exact EffZ.seq hl (sub_right hs) e1 (EffZ.seq hl hsb' ⟨pa, hpa, hidle.symm⟩ eb)
           | _ => simp at h
       | letE x a body =>
         cases hv with
